@@ -343,6 +343,12 @@ def one_lossy(col: Collector, rng, index: int, base_port: int):
             p.wait()
     finally:
         os.unlink(path)
+        import glob
+        for f_ in glob.glob(f"/tmp/lz{base_port}.w*.socket"):
+            try:
+                os.unlink(f_)
+            except OSError:
+                pass
     r = None
     for ln in out.splitlines():
         if ln.startswith("RESULT "):
